@@ -126,8 +126,8 @@ def gen_compound(rng, D, veto):
     """compound constructors that create several pins / wires in one call; `veto`: a guard listener is present and
     may refuse the k-th pin / wire add (k >= 0)"""
     kind = rng.choice(["createPins", "createWires", "createPortPins", "createCableWires"])
-    n = rng.randint(1, 3)
-    va = rng.randrange(n) if (veto and rng.random() < 0.5) else None
+    n = rng.randint(0, 3)            # create_pins(0) / create_wires(0) are legal calls
+    va = rng.randrange(n) if (n and veto and rng.random() < 0.5) else None
     nq, nw = len(D["pin"]), len(D["wire"])
     if kind == "createPins" and _ids(D, "port") and nq + n <= MAXN["pin"]:
         return {"t": kind, "p": rng.choice(_ids(D, "port")), "qs": list(range(nq, nq + n)), "veto_at": va}
@@ -158,7 +158,7 @@ def gen_op(rng, dump, profile="c01", compound=False, veto=False):
             return op
     for _ in range(30):
         cat = rng.choice(cats)
-        op = _gen_cat(rng, dump, cat, valid)
+        op = _gen_cat(rng, dump, cat, valid, veto)
         if op is not None:
             return op
     return {"t": "addLibrary", "n": 0, "l": _fresh(dump, "library"), "create": True, "pos": None}
@@ -183,7 +183,7 @@ def _build(rng, D):
     return None
 
 
-def _gen_cat(rng, dump, cat, valid):
+def _gen_cat(rng, dump, cat, valid, veto=False):
     D = dump
     if cat == "new":
         # bring a further netlist into play (constructor only: no model op needed, so emit its first library)
@@ -210,6 +210,8 @@ def _gen_cat(rng, dump, cat, valid):
             op = {"t": "createChild", "d": rng.choice(defs), "i": _fresh(D, "instance"), "ref": ref}
             if D["definition"][op["d"]]["children"] and rng.random() < 0.2:
                 op["veto"] = True
+            elif veto and ref is not None and rng.random() < 0.15:
+                op["veto_ref"] = True        # a guard listener refuses the reference step (engines with a guard only)
             return op
         op = container_ops(rng, D, "definition", "instance", "children", "parent",
                            ("addChild", "removeChild", "removeChildrenFrom", "setChildren", "d", "i"), valid)
